@@ -1281,6 +1281,11 @@ func (ctx *RenderContext) getItem(container, index interface{}) (interface{}, er
 
 			switch {
 			case indexValue.Type().AssignableTo(keyType):
+				// (an interface-typed key accepts any index, but a list or a
+				// hash used as index cannot be looked up: it is in no map)
+				if !indexValue.Comparable() {
+					return nil, nil
+				}
 				mapKey = indexValue
 			case keyType.Kind() == reflect.String:
 				// String keys are compared with the text of the index (Go's own
